@@ -36,6 +36,25 @@ CLAIMED = {
         technique="Lean 4 executable model + denotational spec + table tie (decide) + exhaustive "
                   "differential correspondence",
         ref="6 C02"),
+    "C03": dict(
+        text="Lean 4 model mirroring contrasts.py literally and the encoding pipeline of Model.eval, with "
+             "the theorem C03_pick_contrasts_partition: for EVERY family of terms in EVERY order "
+             "pick_contrasts succeeds (asserts unreachable) and the coded intervals cover each subset of "
+             "the down-closure exactly once and nothing else; C03_columns_count (columns = dimension "
+             "formula for all level counts); C03_pipeline_partial (under a decidable guard the pipeline's "
+             "coded design partitions), C03_hierarchical(_categorical) (margins-first families satisfy the "
+             "guard), counterexamples for the recorded defects by `decide`. Exhaustive differential run of "
+             "the real pick_contrasts and of design_matrices over all families of <= 3 terms over "
+             "{f,g,h,x} in every order (and more); the partition predicate is evaluated by the driver on "
+             "the implementation's own codings; failures in the Lean-delimited defect classes with the "
+             "model-predicted output are known findings.",
+        note="Trusted: Lean kernel; the bridge from `partition` to rank / column space on "
+             "complete-factorial data (tensor-basis argument) is mathematics outside Lean, validated by "
+             "exact integer elimination on every explored non-failing case (reported as test); the "
+             "pipeline guard is a decidable check on the model's intermediate results.",
+        technique="Lean 4 proof (counting invariant over absorb steps, induction over the term list) + "
+                  "exhaustive differential correspondence + exact-arithmetic rank test",
+        ref="6 C03"),
     "C04": dict(
         text="Lean 4 theorems about the evaluation model: the n-ary label product (itertools.product) "
              "and the n-ary data product (get_interaction_matrix folded with reduce) enumerate columns in "
